@@ -2,8 +2,8 @@
 overflow checks on) and the release binary (both off); per-run transcripts must be identical."""
 import json, os, subprocess, sys, time, shutil
 
-QUICK = (40000, 120)
-THOROUGH = (600000, 900)
+QUICK = (400000, 150)
+THOROUGH = (6000000, 1200)
 
 
 def transcript_hash(ck, fl, path):
